@@ -137,3 +137,69 @@ func VxC10Trie2ProofSoundness() {
 	}
 	vx.Assert(got.Equal(&want), "accepted-proof-establishes-actual-value")
 }
+
+// C10-H2b (trie2, range verifier, single-element responses): the same adversary against VerifyRangeProof with
+// a one-key response (first = the key, keys = [key], values = [claimed value]) - the shape a state-sync peer
+// answers with. Under the ideal-hash model an accepted response establishes that the key holds the claimed
+// value in the honest trie; in particular an inner node's hash cannot be passed off as a leaf (an edge whose
+// child is a value node above the leaf level hashes like the edge to the subtree).
+func VxC10Trie2SingleElementRangeSoundness() {
+	ds := []uint{250}
+	if vx.Thorough() {
+		ds = []uint{1, 250}
+	}
+	vx.Bound("honest root of a trie at height 251 with two arbitrary keys (divergence position 250, i.e. sibling leaves; thorough also 1), non-zero values; response = one arbitrary key with a claimed value (free, or a value / inner hash of the honest trie) and a proof set holding the honest membership proof of the first key plus one arbitrary node (binary / edge-to-hash / edge-to-value), every node filed under its own hash (the receiver builds the set; a forged node replaces an honest one of the same hash)")
+	_, k0W := vxKey251("key")
+	v0 := vxArbFeltT2("val")
+	vx.Assume(!v0.IsZero())
+	vx.Unhashed(&v0)
+	_, k1W := vxKey251("key")
+	v1 := vxArbFeltT2("val")
+	vx.Assume(!v1.IsZero())
+	vx.Unhashed(&v1)
+	d := ds[vx.Choice("divergence", len(ds))]
+	x := k0W.Xor(k1W)
+	vx.Assume(x.Shr(251-d).IsZero() && k0W.Bit(250-d) == 0 && k1W.Bit(250-d) == 1)
+	model := []vxLeaf{{k0W, v0}, {k1W, v1}}
+	left := vxSpecNode([]vxLeaf{model[0]}, 250-d)
+	right := vxSpecNode([]vxLeaf{model[1]}, 250-d)
+	known := []felt.Felt{left, right, vxH(&left, &right)}
+	root := vxSpecNode(model, 251)
+
+	// The receiver of a range response files each node under the hash it computes for it (the range verifier,
+	// unlike VerifyProof, does not re-hash the nodes it takes from the set), so the set is hash-consistent.
+	// It holds the honest membership proof of the first key - root edge, fork, leaf edge, as Prove emits them -
+	// plus one arbitrary node, which replaces an honest node when it hashes to the same key.
+	proof := NewProofNodeSet()
+	put := func(n trienode.Node) { proof.Put(n.Hash(crypto.Pedersen), n) }
+	forkHash := vxH(&left, &right)
+	var lchild, rchild trienode.Node = (*trienode.HashNode)(&left), (*trienode.HashNode)(&right)
+	if d == 250 {
+		lchild, rchild = (*trienode.ValueNode)(&v0), (*trienode.ValueNode)(&v1)
+	} else {
+		lp := trieutils.VxPathFromW(uint8(250-d), k0W.And(vx.W256Mask(250-d)))
+		put(&trienode.EdgeNode{Child: (*trienode.ValueNode)(&v0), Path: lp})
+	}
+	put(&trienode.BinaryNode{Children: [2]trienode.Node{lchild, rchild}})
+	if d > 0 {
+		rp := trieutils.VxPathFromW(uint8(d), k0W.Shr(251-d))
+		put(&trienode.EdgeNode{Child: (*trienode.HashNode)(&forkHash), Path: rp})
+	}
+	put(vxArbProofNode("n0", known))
+	pF, pW := vxKey251("probe")
+	claimed := vxAdvFelt("claimed", append([]felt.Felt{v0, v1}, known...))
+	vx.NodeHashesSeparated()
+	_, err := VerifyRangeProof(&root, &pF, []*felt.Felt{&pF}, []*felt.Felt{&claimed}, proof)
+	if err != nil {
+		vx.Cover("rejected")
+		return
+	}
+	vx.Cover("accepted")
+	want := felt.Zero
+	for _, l := range model {
+		if pW.Eq(l.k) {
+			want = l.v
+		}
+	}
+	vx.Assert(!want.IsZero() && claimed.Equal(&want), "accepted-single-element-response-establishes-the-actual-value")
+}
